@@ -98,7 +98,7 @@ def sweep(rep, rng, reps, deadline):
 
 
 def run(rep: Report):
-    sweep(rep, Rng(rep.seed * 1000003 + 10), 6 if rep.tier == "quick" else 60, time.time() + budget(rep.tier, 60, 800))
+    sweep(rep, Rng(rep.seed * 1000003 + 10), 18 if rep.tier == "quick" else 60, time.time() + budget(rep.tier, 60, 800))
 
 
 def search(rep: Report):
